@@ -134,6 +134,18 @@ func verifyFunction(w *World, fn *ssa.Function, spec *FuncSpec) (vc *VC) {
 			vc.assume(fmt.Sprintf("(or (= %s 0) (select %s %s))", n, compInit(vc.ownedComp()), n))
 		}
 	}
+	// captured variables of a closure verified on its own: arbitrary cells
+	for _, fv := range fn.FreeVars {
+		pt, ok := fv.Type().Underlying().(*types.Pointer)
+		if !ok {
+			vc.unsupportedf("free variable %s is not a cell", fv.Name())
+			continue
+		}
+		n := "fv_" + smtIdent(fv.Name())
+		vc.declare(n, "Int")
+		vc.assume(fmt.Sprintf("(and (> %s 0) (< %s %s))", n, n, compInit("$alloc")))
+		fr.freeL[fv] = &LVal{Comp: vc.memComp(pt.Elem()), Ref: n, T: pt.Elem()}
+	}
 	fr.curReach = "true"
 	fr.letVals = map[string]Term{}
 	for _, l := range spec.Lets {
